@@ -4,7 +4,8 @@ from . import common, e2
 
 COMPS = ["inv_nodes_b", "inv_local_b", "inv_reach_b", "inv_rows_b", "inv_deps_b", "inv_acyclic_b",
          "inv_undeclared_b", "inv_fhash_b", "inv_step_b", "inv_running_nohash_b", "inv_succeeded_b",
-         "inv_nocreator_b", "inv_outedge_b", "inv_succ_products_b"]
+         "inv_nocreator_b", "inv_outedge_b", "inv_succ_products_b", "inv_treefile_b", "inv_trees_nonnested_b",
+         "inv_tree_owns_b"]
 
 
 def main():
@@ -13,18 +14,18 @@ def main():
     length = int(sys.argv[3]) if len(sys.argv) > 3 else 60
     ctx = common.Ctx("E2inv", "quick", seed)
     with common.CoqLock():
-        ok, log = common.coq_make(["model/GraphInv.vo", "model/GraphDump.vo"])
+        ok, log = common.coq_make(["model/GraphInv.vo", "model/GraphDump.vo", "model/GraphTreeInv.vo"])
     assert ok, log
     checks, names = [], []
-    header = e2.HEADER.replace("model.GraphDump.", "model.GraphDump model.GraphInv.")
+    header = e2.HEADER.replace("model.GraphTree.", "model.GraphTree model.GraphInv model.GraphTreeInv.")
     for i in range(n):
         rng = random.Random(f"e2-{seed}-{i}")
         tr, cnt, strict = asyncio.run(e2.gen_trace(rng, length))
         ops = common.coq_list([e2.cq_op(t[0]) for t in tr if t[0][0] != "dispatch_error"])
         for c in COMPS:
-            checks.append(f"all_prefixes_ok {c} (init_st 3) {ops}")
+            checks.append(f"all_prefixes_ok_t {c} (init_st 3) {ops}")
             names.append((i, c))
-    bad = common.run_cases(ctx, "inv", header, checks, chunk=28)
+    bad = common.run_cases(ctx, "inv", header, checks, chunk=34)
     from collections import Counter
     print(Counter(names[b][1] for b in bad))
     print([names[b] for b in bad][:20])
